@@ -81,6 +81,9 @@ type stFn struct {
 	sumRight  string // element type injected with Sum.inr ("ε", or "Unit" for token channels); "" = "ε"
 	chanVars  map[string]*stChan // local variables holding one of the stage's channels
 	rcount    int
+	inHelper  bool // translating the inlined body of a guard helper: `return false` is the goroutine's return
+	helperTail *ast.ReturnStmt
+	pre       []string // lines to emit before the statement being translated (counted user-function calls)
 	needRet   bool   // the next statement must be a bare return (after `if catch { continue }`)
 	timed     bool   // sources family: sleep / recvSel / afterSel / forN are available
 	durNames  map[string]bool // int / time.Duration parameters usable as Nat values
@@ -127,6 +130,10 @@ func (fn *stFn) chanIdx(e ast.Expr) (string, *stChan) {
 		// sel(f.Apply(a)) : a local closure choosing among channels of one element type
 		if h, ok := x.Fun.(*ast.Ident); ok && fn.closNames[h.Name] && len(x.Args) == 1 {
 			if ap, ok := fn.applyCall(x.Args[0]); ok {
+				fn.rcount++
+				r := fmt.Sprintf("r__%d", fn.rcount)
+				fn.pre = append(fn.pre, fmt.Sprintf("let %s ← applyF (%s)", r, ap))
+				ap = r
 				var c0 *stChan
 				for _, c := range fn.order {
 					if c0 == nil || c.elem != "ε" {
@@ -403,23 +410,22 @@ func (fn *stFn) bindApply(lhs []ast.Expr, rhs ast.Expr, depth int) ([]string, bo
 		fn.errVars[names[1]] = true
 		delete(fn.boundErr, names[1])
 		return []string{
-			fmt.Sprintf("%slet r__ := %s %s", ind(depth), id(fn.fName), fn.val(c.Args[0], true)),
+			fmt.Sprintf("%slet r__ ← applyF (%s %s)", ind(depth), id(fn.fName), fn.val(c.Args[0], true)),
 			fmt.Sprintf("%ssetS r__.1", ind(depth)),
 			fmt.Sprintf("%slet %s := r__.2", ind(depth), id(names[1])),
 		}, true
 	}
 	if fn.fKind == "F" && len(names) == 2 && len(c.Args) == 1 {
 		out := []string{}
-		ap := ""
+		fn.rcount++
+		ap := fmt.Sprintf("r__%d", fn.rcount)
 		if a0, ok := c.Args[0].(*ast.Ident); ok && a0.Name == fn.stateVar && fn.stateVar != "" {
 			// the argument is the loop-carried variable: read it once, before anything is assigned
 			fn.usesF = true
-			fn.rcount++
-			r := fmt.Sprintf("r__%d", fn.rcount)
-			out = append(out, fmt.Sprintf("%slet %s := %s (← getS)", ind(depth), r, id(fn.fName)))
-			ap = r
+			out = append(out, fmt.Sprintf("%slet %s ← applyF (%s (← getS))", ind(depth), ap, id(fn.fName)))
 		} else {
-			ap, _ = fn.applyCall(rhs)
+			call, _ := fn.applyCall(rhs)
+			out = append(out, fmt.Sprintf("%slet %s ← applyF (%s)", ind(depth), ap, call))
 		}
 		if names[0] != "_" {
 			if fn.fResTy == "Bool" {
@@ -458,6 +464,18 @@ func (fn *stFn) bindApply(lhs []ast.Expr, rhs ast.Expr, depth int) ([]string, bo
 }
 
 func (fn *stFn) stmt(st ast.Stmt, depth int, last bool) []string {
+	save := fn.pre
+	fn.pre = nil
+	lines := fn.stmt0(st, depth, last)
+	pre := []string{}
+	for _, l := range fn.pre {
+		pre = append(pre, ind(depth)+l)
+	}
+	fn.pre = save
+	return append(pre, lines...)
+}
+
+func (fn *stFn) stmt0(st ast.Stmt, depth int, last bool) []string {
 	p := ind(depth)
 	switch x := st.(type) {
 	case *ast.EmptyStmt:
@@ -471,12 +489,18 @@ func (fn *stFn) stmt(st ast.Stmt, depth int, last bool) []string {
 			}
 			sfail(st, "catch: unsupported return %s", src(st))
 		}
+		if fn.inHelper {
+			if len(x.Results) == 1 && src(x.Results[0]) == "false" {
+				return []string{p + "ret"}
+			}
+			sfail(st, "guard helper: only `return false` may leave the helper early")
+		}
 		if len(x.Results) != 0 {
 			sfail(st, "return with values inside a worker")
 		}
 		return []string{p + "ret"}
 	case *ast.BranchStmt:
-		if x.Tok == token.CONTINUE && x.Label == nil && !fn.inCatch {
+		if x.Tok == token.CONTINUE && x.Label == nil && !fn.inCatch && !fn.inHelper {
 			return []string{p + "next"}
 		}
 	case *ast.SendStmt:
@@ -668,14 +692,14 @@ func (fn *stFn) stmt(st ast.Stmt, depth int, last bool) []string {
 		}
 		switch {
 		case recvArm != "" && send == nil && hasDone && !hasDef:
-			if len(recvBody) != 0 || !isBareReturn(doneBody, false) {
+			if len(recvBody) != 0 || !isBareReturn(doneBody, fn.inHelper) {
 				sfail(st, "select{recv|Done}: the receive arm must be empty and the Done arm a bare return")
 			}
 			return []string{p + recvArm}
 		case recvArm != "":
 			sfail(st, "unsupported select shape")
 		case send != nil && hasDone && !hasDef:
-			if len(sendBody) != 0 || !isBareReturn(doneBody, fn.inCatch) {
+			if len(sendBody) != 0 || !isBareReturn(doneBody, fn.inCatch || fn.inHelper) {
 				sfail(st, "select{send|Done}: the send arm must be empty and the Done arm a bare return")
 			}
 			ci, ch := fn.chanIdx(send.Chan)
@@ -802,6 +826,38 @@ func (fn *stFn) ifStmt(x *ast.IfStmt, depth int, last bool) []string {
 			}
 			ci, c := fn.chanIdx(ch)
 			return append(out, fmt.Sprintf("%sselSend %s %s", p, ci, fn.inj(c, fn.val(v, true))))
+		}
+		// if !h(args…) { return }  for an unexported guard helper of the same file: its body is inlined, `return false`
+		// being the goroutine's return and the final `return true` the fall-through
+		if call, ok := u.X.(*ast.CallExpr); ok && !fn.inCatch && !fn.inHelper && x.Else == nil && isBareReturn(x.Body.List, false) {
+			if hb := resolveCall(currentFile, call, true); hb != nil && len(hb.List) > 0 {
+				// a helper that is one select whose communication arm ends with `return true`
+				if sel, ok := hb.List[0].(*ast.SelectStmt); ok && len(hb.List) == 1 {
+					n := 0
+					for _, cl := range sel.Body.List {
+						cc := cl.(*ast.CommClause)
+						if len(cc.Body) == 1 {
+							if r, ok := cc.Body[0].(*ast.ReturnStmt); ok && len(r.Results) == 1 && src(r.Results[0]) == "true" && cc.Comm != nil {
+								cc.Body = nil
+								n++
+							}
+						}
+					}
+					if n == 1 {
+						fn.inHelper = true
+						lines := fn.block(hb.List, depth, false)
+						fn.inHelper = false
+						return append(out, lines...)
+					}
+				}
+				tail, ok := hb.List[len(hb.List)-1].(*ast.ReturnStmt)
+				if ok && len(tail.Results) == 1 && src(tail.Results[0]) == "true" {
+					fn.inHelper, fn.helperTail = true, tail
+					lines := fn.block(hb.List[:len(hb.List)-1], depth, false)
+					fn.inHelper, fn.helperTail = false, nil
+					return append(out, lines...)
+				}
+			}
 		}
 	}
 	// if f.catch(ctx, err, exx) { continue } ; return
@@ -934,6 +990,11 @@ func (fn *stFn) closure(name string, lit *ast.FuncLit) {
 // plain identifier: the goroutine body is the function's body with its parameters renamed to the arguments
 // (a fresh parse of the file is renamed in place, so the caller's AST is not touched).
 func resolveGoCall(path string, call *ast.CallExpr) *ast.BlockStmt {
+	return resolveCall(path, call, false)
+}
+
+// wantBool: the callee must return exactly one bool (a guard helper used as `if !h(…) { return }`); otherwise nothing
+func resolveCall(path string, call *ast.CallExpr, wantBool bool) *ast.BlockStmt {
 	h, ok := call.Fun.(*ast.Ident)
 	if !ok {
 		return nil
@@ -952,7 +1013,11 @@ func resolveGoCall(path string, call *ast.CallExpr) *ast.BlockStmt {
 		if !ok || fd.Recv != nil || fd.Name.Name != h.Name || fd.Name.IsExported() || fd.Body == nil {
 			continue
 		}
-		if fd.Type.Results != nil && len(fd.Type.Results.List) != 0 {
+		if wantBool {
+			if fd.Type.Results == nil || len(fd.Type.Results.List) != 1 || len(fd.Type.Results.List[0].Names) != 0 || src(fd.Type.Results.List[0].Type) != "bool" {
+				return nil
+			}
+		} else if fd.Type.Results != nil && len(fd.Type.Results.List) != 0 {
 			return nil
 		}
 		params := []string{}
@@ -968,8 +1033,33 @@ func resolveGoCall(path string, call *ast.CallExpr) *ast.BlockStmt {
 		for k, pn := range params {
 			ren[pn] = args[k]
 		}
-		// no local declaration may capture an argument name
+		// no local declaration may capture an argument name; parameters are not assigned (they are copies in Go)
 		bad := false
+		isParam := map[string]bool{}
+		for _, pn := range params {
+			isParam[pn] = true
+		}
+		ast.Inspect(fd.Body, func(n ast.Node) bool {
+			switch y := n.(type) {
+			case *ast.AssignStmt:
+				for _, l := range y.Lhs {
+					if i, ok := l.(*ast.Ident); ok && isParam[i.Name] {
+						bad = true
+					}
+				}
+			case *ast.IncDecStmt:
+				if i, ok := y.X.(*ast.Ident); ok && isParam[i.Name] {
+					bad = true
+				}
+			case *ast.UnaryExpr:
+				if y.Op == token.AND {
+					if i, ok := y.X.(*ast.Ident); ok && isParam[i.Name] {
+						bad = true
+					}
+				}
+			}
+			return true
+		})
 		ast.Inspect(fd.Body, func(n ast.Node) bool {
 			if as, ok := n.(*ast.AssignStmt); ok && as.Tok == token.DEFINE {
 				for _, l := range as.Lhs {
